@@ -19,7 +19,7 @@ from ..program import AnalysisError, Inconclusive, ClassInfo, ExtClass
 from ..values import (Const, Sym, CRef, FRef, ERef, Bound, Obj, Tup, App,
                       New, Raise, walk)
 from ..interp import Interp, Hooks
-from ..report import Finding, RuleResult, floor
+from ..report import Finding, RuleResult, floor, Attempts
 
 PROP = 'C17'
 
@@ -294,6 +294,30 @@ def _discover_apply(prog):
         raise Inconclusive('R-BDD-1', 'step function of %s not found' %
                            target.short(), target.where())
     return f, target, step
+
+
+def discover_steps(prog):
+    """(OBDD.apply, apply wrapper, apply step, restrict wrapper, restrict
+    step) -- found through the calls, used when R-BDD-1 itself is undecided"""
+    base = prog.cls('BDD.BDD.BDDNode')
+    oapply, wrapper, step = _discover_apply(prog)
+    rfun = prog.method(base, 'restrict')
+    bmod = step.module
+    rwrap = None
+    for n in ast.walk(rfun.node):
+        if isinstance(n, ast.Call) and isinstance(n.func, ast.Name) and \
+                n.func.id in bmod.funcs:
+            rwrap = bmod.funcs[n.func.id]
+    rstep = None
+    if rwrap is not None:
+        for n in ast.walk(rwrap.node):
+            if isinstance(n, ast.Call) and isinstance(n.func, ast.Name) and \
+                    n.func.id in bmod.funcs and n.func.id != rwrap.name:
+                rstep = bmod.funcs[n.func.id]
+    if rstep is None:
+        raise Inconclusive('R-BDD-1', 'restrict step not found',
+                           rfun.where())
+    return (oapply, wrapper, step, rwrap, rstep)
 
 
 def rule_bdd1(prog, tier):
@@ -823,11 +847,194 @@ def rule_bdd5(prog):
     return r
 
 
+# ---------------------------------------------------------------------------
+# R-BDD-6  memo tables live for one top-level operation
+# ---------------------------------------------------------------------------
+
+def _is_fresh_dict(n):
+    return (isinstance(n, ast.Dict) and not n.keys) or (
+        isinstance(n, ast.Call) and isinstance(n.func, ast.Name) and
+        n.func.id == 'dict' and not n.args and not n.keywords)
+
+
+def _module_functions(prog, mn):
+    mod = prog.module(mn)
+    fs = list(mod.funcs.values())
+    for ci in mod.classes.values():
+        for n, node in ci.attrs.items():
+            if isinstance(node, ast.FunctionDef):
+                fs.append(prog.method(ci, n, own=True))
+    return fs
+
+
+def memo_functions(prog):
+    """(function, parameter index, parameter name) of every function of the
+    BDD package with a parameter that is used as a memo table: written by
+    subscript and read by subscript / membership"""
+    out = []
+    for mn in ('BDD.BDD', 'BDD.OBDD'):
+        for f in _module_functions(prog, mn):
+            names = [a.arg for a in f.node.args.args]
+            for i, pn in enumerate(names):
+                w = rd = False
+                for n in ast.walk(f.node):
+                    if isinstance(n, ast.Subscript):
+                        b = n
+                        while isinstance(b, ast.Subscript):
+                            b = b.value
+                        if isinstance(b, ast.Name) and b.id == pn:
+                            if isinstance(n.ctx, ast.Store):
+                                w = True
+                            else:
+                                rd = True
+                    if isinstance(n, ast.Compare) and any(
+                            isinstance(o, (ast.In, ast.NotIn))
+                            for o in n.ops):
+                        for c in n.comparators:
+                            b = c
+                            while isinstance(b, ast.Subscript):
+                                b = b.value
+                            if isinstance(b, ast.Name) and b.id == pn:
+                                rd = True
+                if w and rd:
+                    out.append((f, i, pn))
+    return out
+
+
+def rule_bdd6(prog):
+    r = RuleResult('R-BDD-6', 'memo tables of apply / restrict / negation '
+                   'are allocated per top-level operation (their keys do not '
+                   'include the operator, the ordering or the lifetime of '
+                   'the nodes)')
+    memos = memo_functions(prog)
+    floor('R-BDD-6', 'memo functions', len(memos), 3)
+    by_name = {}
+    for (f, i, pn) in memos:
+        by_name.setdefault(f.name, []).append((f, i, pn))
+    # functions that merely pass their own table parameter down
+    carriers = {}
+    for mn in ('BDD.BDD', 'BDD.OBDD'):
+        for f in _module_functions(prog, mn):
+            carriers[f.qn] = f
+    allf = list(carriers.values())
+
+    def classify(f, expr):
+        """where does the table expression come from, inside function f"""
+        params = [a.arg for a in f.node.args.args]
+        if expr is None:
+            return 'default'
+        if _is_fresh_dict(expr):
+            return 'fresh'
+        if isinstance(expr, ast.Name):
+            assigns = []
+            for n in ast.walk(f.node):
+                if isinstance(n, ast.Assign):
+                    for t in n.targets:
+                        if isinstance(t, ast.Name) and t.id == expr.id:
+                            assigns.append(n.value)
+                elif isinstance(n, (ast.AugAssign, ast.AnnAssign)) and \
+                        isinstance(n.target, ast.Name) and \
+                        n.target.id == expr.id:
+                    assigns.append(n.value)
+            kinds = set('fresh' if _is_fresh_dict(a) else
+                        'shared:' + ast.unparse(a)[:60] for a in assigns)
+            if expr.id in params:
+                kinds.add('param')
+            if not kinds:
+                return 'shared:' + expr.id
+            bad = sorted(k for k in kinds if k.startswith('shared'))
+            if bad:
+                return bad[0]
+            return 'param' if 'param' in kinds else 'fresh'
+        return 'shared:' + ast.unparse(expr)[:60]
+
+    n = 0
+    for f in allf:
+        for c in ast.walk(f.node):
+            if not isinstance(c, ast.Call):
+                continue
+            targets = []
+            if isinstance(c.func, ast.Name):
+                # resolved through the caller's module namespace (import
+                # aliases such as `from .BDD import apply as BDDapply`)
+                b = prog.namespace(f.module).get(c.func.id)
+                for (m, i, pn) in memos:
+                    if m.owner is None and getattr(b, 'qn', None) == m.qn:
+                        targets.append((m, i, pn, i))
+            elif isinstance(c.func, ast.Attribute):
+                # x.m(...): by method name (class-hierarchy analysis); the
+                # receiver takes the place of `self`
+                for (m, i, pn) in by_name.get(c.func.attr, []):
+                    if m.owner is not None:
+                        targets.append((m, i, pn, i - 1))
+            for (m, i, pn, idx) in targets:
+                arg = c.args[idx] if 0 <= idx < len(c.args) else None
+                for kw in c.keywords:
+                    if kw.arg == pn:
+                        arg = kw.value
+                kind = classify(f, arg)
+                n += 1
+                r.inst(call='%s -> %s' % (f.short(), m.short()),
+                       table=ast.unparse(arg) if arg is not None else
+                       '(default)', provenance=kind)
+                if kind.startswith('shared'):
+                    r.fail(Finding(
+                        PROP, 'R-BDD-6',
+                        '%s:%d' % (f.module.relpath, c.lineno), f.short(),
+                        'shared-memo:%s:%s' % (m.name, kind),
+                        '%s hands %s the memo table `%s`, which outlives the '
+                        'operation: results are keyed by the operand nodes '
+                        'only, so an entry computed for another operator / '
+                        'ordering, or for a node whose identity has been '
+                        'reused after garbage collection, is returned' % (
+                            f.short(), m.short(), kind[7:])))
+                else:
+                    r.ok()
+    # a memo function must not rebind its table to something shared, and a
+    # default of None must be replaced by a fresh dict
+    for (m, i, pn) in memos:
+        kind = classify(m, ast.Name(id=pn, ctx=ast.Load()))
+        d = m.node.args.defaults
+        npos = len(m.node.args.args)
+        dflt = d[i - (npos - len(d))] if i >= npos - len(d) else None
+        r.inst(memo=m.short(), parameter=pn, rebinding=kind,
+               default=ast.unparse(dflt) if dflt is not None else None)
+        n += 1
+        if kind.startswith('shared'):
+            r.fail(Finding(
+                PROP, 'R-BDD-6', m.where(), m.short(),
+                'shared-memo:%s:%s' % (m.name, kind),
+                '%s replaces its memo table by `%s`, which outlives the '
+                'operation: results are keyed by the operand nodes only, so '
+                'an entry computed in another operation (other operator / '
+                'ordering, or a node identity reused after garbage '
+                'collection) is returned' % (m.short(), kind[7:])))
+        elif dflt is not None and not (isinstance(dflt, ast.Constant) and
+                                       dflt.value is None):
+            r.fail(Finding(
+                PROP, 'R-BDD-6', m.where(), m.short(),
+                'mutable-default:%s' % m.name,
+                '%s has the mutable default `%s` for its memo table: it is '
+                'shared by all calls' % (m.short(), ast.unparse(dflt))))
+        else:
+            r.ok()
+    floor('R-BDD-6', 'memo call sites', n, 8)
+    return r
+
+
 def run(prog, tier, seed):
-    r1, found = rule_bdd1(prog, tier)
-    r2 = rule_bdd2(prog, found)
-    r3, r4 = rule_bdd34(prog, found)
-    r5 = rule_bdd5(prog)
+    T = Attempts()
+    r6 = T(rule_bdd6, prog)
+    r1, found = T(rule_bdd1, prog, tier, _n=2)
+    if found is None:
+        found = T(discover_steps, prog)
+    if found is not None:
+        r2 = T(rule_bdd2, prog, found)
+        r3, r4 = T(rule_bdd34, prog, found, _n=2)
+    else:
+        r2 = r3 = r4 = None
+        T.skipped('R-BDD-2..4')
+    r5 = T(rule_bdd5, prog)
     expl = ('The recursion steps of apply (discovered from OBDD.apply), '
             'restrict and negation are interpreted abstractly with the '
             'recursive calls kept symbolic; each extracted step -- with the '
@@ -848,4 +1055,4 @@ def run(prog, tier, seed):
                    'checked on all operand pairs over 2 (quick) / a sample '
                    'over 3 (thorough) variables',
                    'node construction is hash-consed (C16)']
-    return [r1, r2, r3, r4, r5], expl, assumptions, {}
+    return T.results(r1, r2, r3, r4, r5, r6), expl, assumptions, T.extra()
